@@ -320,17 +320,28 @@ def it_pattern(c):
     if w == 0:
         c['expect_error'] = True
     a = I(max(w, 1), 'a')
-    m, fields = pyrtl.match_bitpattern(a, pat)
     lsb = clean[::-1]
     names = []
     for ch in clean:
         if ch not in '01?' and ch not in names:
             names.append(ch)
+    if c.get('field_map'):
+        # the optional map from pattern letters to field names, written in an order other than the pattern's (and, 'extra',
+        # with an entry for a letter the pattern does not use); the returned tuple keeps the pattern's left-to-right order
+        order = sorted(names, reverse=True) if c['field_map'] != 'sorted' else sorted(names)
+        fmap = {nm: 'field_' + nm for nm in order}
+        m, fields = pyrtl.match_bitpattern(a, pat, fmap)
+        shown = ['field_' + nm for nm in names]
+    else:
+        m, fields = pyrtl.match_bitpattern(a, pat)
+        shown = list(names)
     outs = {'m': m}
-    if tuple(fields._fields) != tuple(names):
-        raise AssertionError('field order %r, documented left-to-right order %r' % (fields._fields, names))
-    for nm in names:
-        outs['f_' + nm] = getattr(fields, nm)
+    if tuple(fields._fields) != tuple(shown):
+        raise AssertionError('field order %r, documented left-to-right order %r' % (fields._fields, shown))
+    for k_, nm in enumerate(names):
+        outs['f_' + nm] = fields[k_]
+        if getattr(fields, shown[k_]) is not fields[k_]:
+            raise AssertionError('field %s by name is not the field at its position %d' % (shown[k_], k_))
 
     def orc(ins):
         x = ins['a']
@@ -646,6 +657,9 @@ def cases(tier, seed):
                 continue
             out.append({'item': 'pattern', 'pat': p})
     out.append({'item': 'pattern', 'pat': '01aa1?bbb11a'})
+    for p in ('ba', 'b1a', 'ssdd', 'dds1s', 'zyx', 'a?b0c', 'cab', '01aa1?bbb11a', 'b0a1b', 'xa'):
+        for fm in ('reversed', 'sorted'):
+            out.append({'item': 'pattern', 'pat': p, 'field_map': fm})
     out.append({'item': 'pattern', 'pat': 'iiiiiiirrrrrsssss010iiiii0100011'})
     for ws in ([1], [1, 1], [3, 1, 2], [6, 5, 5, 16], [1, 30, 1], [2, 2, 2, 2]):
         out.append({'item': 'chop', 'ws': ws})
